@@ -207,3 +207,58 @@ theorem records_split (old new : Emu) :
         | ok s => exact ⟨e, by rw [he]⟩
 
 end Ovni.Emu
+
+namespace Ovni.Emu
+open Ovni.Generated
+
+theorem except_error_iff_not_ok {α} (r : Except Err α) : (∃ x, r = .error x) ↔ ¬ ∃ v, r = .ok v := by
+  cases r with
+  | error e => exact ⟨fun _ ⟨v, hv⟩ => (by cases hv), fun _ => ⟨e, rfl⟩⟩
+  | ok v => exact ⟨fun ⟨x, hx⟩ => (by cases hx), fun h => absurd ⟨v, rfl⟩ h⟩
+
+theorem emitRaw_error_prvZero {file row type flags : Nat} {c : Chan} {x : Err} (h : emitRaw file row type flags c = .error x) :
+    x = .prvZero := by
+  unfold emitRaw at h
+  split at h
+  · cases hp : prvValue flags c.cur with
+    | ok v => simp only [hp, bind, Except.bind, pure, Except.pure] at h; cases h
+    | error e =>
+      simp only [hp, bind, Except.bind] at h
+      injection h with h; rw [← h]; exact prvValue_error hp
+  · cases h
+
+theorem emitView_error_prvZero {file row type flags : Nat} {vo vn : Value} {x : Err}
+    (h : emitView file row type flags vo vn = .error x) : x = .prvZero := by
+  unfold emitView at h
+  split at h
+  · cases h
+  · cases hp : prvValue flags vn with
+    | ok v => simp only [hp, bind, Except.bind, pure, Except.pure] at h; cases h
+    | error e =>
+      simp only [hp, bind, Except.bind] at h
+      injection h with h; rw [← h]; exact prvValue_error hp
+
+/-- The only error of `records` is "forbidden value 0". -/
+theorem records_error_prvZero {old new : Emu} {x : Err} (h : records old new = .error x) : x = .prvZero := by
+  rw [records_flat] at h
+  obtain ⟨y, hy, rfl⟩ := collect_error' h
+  have hsys3 : ∀ (l : List (Except Err (List PrvRec))) (a b c : Except Err (List PrvRec)), l = [a, b, c] →
+      (.error x) ∈ l → (a = .error x ∨ b = .error x ∨ c = .error x) := by
+    intro l a b c hl hm; subst hl; simpa [eq_comm] using hm
+  rcases List.mem_append.mp hy with hy | hy
+  · obtain ⟨t, _, hy⟩ := List.mem_flatMap.mp hy
+    rcases List.mem_append.mp hy with hy | hy
+    · rcases hsys3 _ _ _ _ rfl hy with h | h | h <;> exact emitRaw_error_prvZero h
+    · unfold thViewList at hy
+      obtain ⟨m, _, hy⟩ := List.mem_flatMap.mp hy
+      obtain ⟨i, _, hy⟩ := List.mem_map.mp hy
+      exact emitView_error_prvZero hy
+  · obtain ⟨c, _, hy⟩ := List.mem_flatMap.mp hy
+    rcases List.mem_append.mp hy with hy | hy
+    · rcases hsys3 _ _ _ _ rfl hy with h | h | h <;> exact emitRaw_error_prvZero h
+    · unfold cpuViewList at hy
+      obtain ⟨m, _, hy⟩ := List.mem_flatMap.mp hy
+      obtain ⟨i, _, hy⟩ := List.mem_map.mp hy
+      exact emitView_error_prvZero hy
+
+end Ovni.Emu
